@@ -9,6 +9,9 @@ pub trait Real: FftNum + PartialEq + PartialOrd {
     fn to(self) -> f64;
     fn nan() -> Self;
     fn bits(self) -> u64;
+    /// a subnormal value built from raw bits (no floating-point arithmetic involved, so that a flush-to-zero mode of the
+    /// constructing thread cannot turn it into zero)
+    fn subnormal(k: u32) -> Self;
 }
 impl Real for f32 {
     const NAME: &'static str = "f32";
@@ -25,6 +28,9 @@ impl Real for f32 {
     fn bits(self) -> u64 {
         self.to_bits() as u64
     }
+    fn subnormal(k: u32) -> f32 {
+        f32::from_bits((k & 0x003f_ffff) | 0x1000 | ((k & 1) << 31))
+    }
 }
 impl Real for f64 {
     const NAME: &'static str = "f64";
@@ -40,6 +46,9 @@ impl Real for f64 {
     }
     fn bits(self) -> u64 {
         self.to_bits()
+    }
+    fn subnormal(k: u32) -> f64 {
+        f64::from_bits((((k as u64) << 24) & 0x0007_ffff_ffff_ffff) | 0x1_0000_0000 | (((k & 1) as u64) << 63))
     }
 }
 
